@@ -124,13 +124,13 @@ pub fn castling_never_only_move<S: Src, const SIDE: u8>(s: &mut S) {
 /// the probe asks A only about non-castling pseudo-legal moves, answers false only if A rejected
 /// every one of them, and answers true exactly by stopping on a move A accepted.
 /// Natively (replay) the real filter runs and the answer is compared with the rules directly.
-pub fn has_legal_moves_wiring<S: Src, const SIDE: u8, const K: u32>(s: &mut S) {
+pub fn has_legal_moves_wiring<S: Src, const SIDE: u8, const KP: u32, const KN: u32>(s: &mut S) {
     crate::stubs::draw_hash_pool(s);
     let b = match any_board(s, SIDE) {
         Some(b) => b,
         None => return,
     };
-    vassume!(gen_bound(&b, K));
+    vassume!(gen_bound2(&b, KP, KN));
     let p = pos_of(b.raw());
     #[cfg(kani)]
     {
